@@ -96,6 +96,9 @@ def C02(tier):
         # runs of 70..260 equal values: recursion as deep as the run is long whatever the pivots are
         dict(name="deep_recursion", family="sort", trace="Trace_Sort", trace_constants=FIX, profile="dev", chunk=40,
              gen=dict(count=(200, 2000), params={"kinds": "select/bulk", "oor_den": "0", "deep": "1"})),
+        # lanes of 300..700 elements with 6..16 requests: positions, ranks and index shifts beyond one byte (seeded change C02_Q)
+        dict(name="very_long_lanes", family="sort", trace="Trace_Sort", trace_constants=FIX, profile="dev", chunk=20,
+             gen=dict(count=(80, 600), params={"kinds": "select/bulk/bulk", "oor_den": "0", "long": "3", "bigstride": "0"})),
     ]
     return dict(models=models, stages=stages, nontrivial=sort_nontrivial, exhaustive=True,
                 rule="every complete behaviour (pattern, index or request list, pivot sequence) of MC_Select_emit / MC_Bulk_emit "
